@@ -60,7 +60,7 @@ RefundSStoreClear == 15000
 \* ---------------------------------------------------------------- classes
 ToPay == { <<"acct", "none">>, <<"acct", "data">>, <<"contract", "set">>, <<"contract", "clear">>, <<"contract", "revert">>,
            <<"contract", "burn">>, <<"create", "ok">>, <<"create", "fail">>, <<"staking", "delegate">>, <<"staking", "deposit">>,
-           <<"staking", "garbage">> }
+           <<"staking", "garbage">>, <<"staking", "unauth">> }
 NonceCls == {"low", "eq", "high"}
 LimitCls == {"below", "exact", "ample", "huge", "allfunds", "over1funds"}
 ValueCls == {"zero", "some", "edge", "over1"}
@@ -77,6 +77,7 @@ SeqCls == { C(1, "eq", "ample", "some", "acct", "none", 2),
             C(1, "eq", "ample", "zero", "create", "ok", 1),
             C(1, "eq", "exact", "zero", "staking", "delegate", 1),
             C(1, "eq", "ample", "zero", "staking", "garbage", 2),
+            C(1, "eq", "ample", "zero", "staking", "unauth", 1),
             C(1, "replay", "ample", "some", "acct", "none", 2),
             C(1, "high", "ample", "zero", "acct", "none", 1),
             C(2, "eq", "exact", "some", "acct", "none", 1),
@@ -95,7 +96,7 @@ BaseGas(to) == CASE to = "create" -> 53000 [] to = "staking" -> 100000 [] OTHER 
 Intrinsic(to, nz, z) == BaseGas(to) + 16 * nz + 4 * z
 
 \* value the transaction names: msg.Value for EVM transactions, the payload's value for staking transactions
-StakeValue(pay) == CASE pay = "delegate" -> 10 [] pay = "deposit" -> 20 [] OTHER -> 0
+StakeValue(pay) == CASE pay = "delegate" -> 10 [] pay \in {"deposit", "unauth"} -> 20 [] OTHER -> 0
 
 Conc(c) ==
    LET s == c.s
@@ -127,7 +128,7 @@ Pre == [nonce |-> nonce, bal |-> bal, pool |-> pool, gu |-> gu, gr |-> gr]
 GasChoices(t) ==
    LET I == t.intr  L == t.limit  mid == (I + L) \div 2 IN
    CASE t.to = "acct" -> {[g |-> I, failed |-> FALSE]}
-     [] t.pay \in {"burn", "fail", "garbage"} -> {[g |-> L, failed |-> TRUE]}
+     [] t.pay \in {"burn", "fail", "garbage", "unauth"} -> {[g |-> L, failed |-> TRUE]}
      [] t.to = "staking" -> {[g |-> I, failed |-> FALSE], [g |-> L, failed |-> TRUE]}
      [] OTHER -> IF GasMode = "one" THEN {[g |-> mid, failed |-> FALSE]}
                  ELSE {[g |-> I, failed |-> FALSE], [g |-> mid, failed |-> FALSE], [g |-> L, failed |-> FALSE],
@@ -172,7 +173,7 @@ Applied(t, c, o) ==
 OutcomeAllowed(t, o) ==
    /\ t.intr <= o.g /\ o.g <= t.limit
    /\ (t.to = "acct" /\ t.pay # "replayed") => (o.g = t.intr /\ ~o.failed)
-   /\ t.pay \in {"burn", "fail", "garbage"} => (o.failed /\ o.g = t.limit)
+   /\ t.pay \in {"burn", "fail", "garbage", "unauth"} => (o.failed /\ o.g = t.limit)
    /\ (t.to = "staking" /\ o.failed) => o.g = t.limit          \* YouV4+: a failed staking action burns the whole limit
    /\ 0 <= o.r /\ o.r <= o.g \div 2                            \* refundGas: capped at half of the used gas
    /\ o.r > 0 => (t.pay = "clear" /\ ~o.failed)
@@ -240,10 +241,10 @@ RevertedUnchanged ==
 \* A signature binds (key, the six fields, network id).  Recover yields the key only for exactly what was signed, with
 \* the canonical (low-s) encoding; anything else yields another address ("other") or an error.
 Fields == {"nonce", "price", "limit", "to", "value", "data"}
-Mutations == {"none", "nonce", "price", "limit", "to", "value", "data", "data_trunc", "netid_v", "netid_signer", "highs", "highs_flipv",
-              "flipv", "unprotected", "r"}
+Mutations == {"none", "nonce", "price", "limit", "to", "value", "data", "data_trunc", "netid_v", "netid_signer", "netid_replay",
+              "highs", "highs_flipv", "flipv", "unprotected", "r"}
 Touches(m) == CASE m \in Fields -> {m} [] m = "data_trunc" -> {"data"} [] m \in {"netid_v", "netid_signer", "unprotected"} -> {"net"}
-                [] m \in {"highs", "highs_flipv"} -> {"s"} [] m = "flipv" -> {"v"} [] m = "r" -> {"r"} [] OTHER -> {}
+                [] m = "netid_replay" -> {"net", "hash"} [] m \in {"highs", "highs_flipv"} -> {"s"} [] m = "flipv" -> {"v"} [] m = "r" -> {"r"} [] OTHER -> {}
 Recover(m) == IF Touches(m) = {} THEN "same" ELSE IF Touches(m) \subseteq {"net", "s"} THEN "err" ELSE "other"
 SenderAuthenticModel == \A m \in Mutations : (m = "none") <=> (Recover(m) = "same")
 ASSUME SenderAuthenticModel
